@@ -17,6 +17,14 @@ All three share spec/AggSymmetry.tla (+ SymAgg.tla, TraceAggSymmetry.tla):
      aggregators the model bounds (NearMaxLaw);
  (c) C->S  seeded random lattice instances and random generator words, logged with both outputs and validated
      by TraceAggSymmetry (exact aggregators by value, the others at predicate level, classification cross-checked).
+
+Instance families with their own modules (same three parts each; harness/aggsym_many.py, harness/aggsym_cancel.py):
+  spec/AggSymMany.tla (+ TraceAggSymMany)    C08, C10: 27..40 rows = large common offset + small integer spread (Krum's
+                                             selection decided from the exact distances of the spread; TrimmedMean, Mean);
+  spec/AggSymCancel.tla (+ TraceAggSymCancel) C10: GradDrop (fixed seed, leak) on columns with large cancelling entries,
+                                             all m! row orders, claimed on the columns the model classifies as absorbing;
+and, inside AggSymmetry, the TALL instances with independent columns and one row norm on which ConFIG is exact (C09:
+the total length sum_i c_i <g_i, u> changes sign with the row scaling c).
 """
 
 from __future__ import annotations
@@ -167,7 +175,7 @@ def _run(ctx: Ctx, replay: str | None, pid: str) -> None:
     # further instance families with their own specifications (model check, replay, traces)
     if pid in ("C08", "C10"):
         run_many(ctx, pid)                                    # spec/AggSymMany.tla: 27..40 rows = common offset + spread
-        ctx.extra["trace_summary_many_rows"] = run_many_cs(ctx, pid, 30 if ctx.tier == "quick" else 120)
+        ctx.extra["trace_summary_many_rows"] = run_many_cs(ctx, pid, 20 if ctx.tier == "quick" else 120)
     if pid == "C10":
         run_cancel(ctx, pid)                                  # spec/AggSymCancel.tla: GradDrop, large cancelling entries
         ctx.extra["trace_summary_cancelling_columns"] = run_cancel_cs(ctx, pid, 60 if ctx.tier == "quick" else 240)
